@@ -10,6 +10,6 @@ cd /verif
 set +e
 VERIF_REPO="$D" ./check "$PROP" --tier "$TIER" --no-mc > "$D.log" 2>&1
 RC=$?
-grep -E "^VIOLATION|^  what|^KNOWN|MACHINERY|PASS|FAIL" "$D.log" | head -12
+grep -E "^VIOLATION|^  what|^KNOWN|MACHINERY|PASS|FAIL" "$D.log" | head -40
 rm -rf "$D" "$D.log"
 exit $RC
